@@ -190,7 +190,7 @@ PROPS["C07"] = dict(
     lean_props=["SeaQ.Props.C02"],
     lean_obligations=["SeaQ.Lemmas.Scan", "SeaQ.Lemmas.SafeBasics", "SeaQ.Lemmas.Ctx", "SeaQ.Lemmas.RenderCtx", "SeaQ.Props.C01"],
     extra=[stage_c07],
-    technique="Lean 4 statement rendering model (SQLite dialect) tied to the crate by differential runs; the machine-checked part is that the inline and the parameterised form are the same statement (C02_substitute) with the placeholders bound one-to-one (C01_placeholders); what the statement DOES is decided by execution: every generated statement over a fixed schema is run on a real SQLite (python sqlite3) as inline text, as parameterised text with bound values and as an independently written fully explicit rendering of the same builder calls, and rows, RETURNING rows and table contents are compared",
+    technique="Lean 4 statement rendering model (SQLite dialect) tied to the crate by differential runs; the machine-checked part is that the inline and the parameterised form are the same statement (C02_substitute) with the placeholders bound one-to-one (C01_placeholders); what the statement DOES is decided by execution: every generated statement over a fixed schema is run on a real SQLite (python sqlite3) as inline text, as parameterised text with bound values and as an independently written fully explicit rendering of the same builder calls, and rows, RETURNING rows and table contents are compared; WHERE clauses built by call histories (and_where / cond_where sequences incl. empty any / all) are executed against the explicit conjunction; every convenience method of the builders (expression operators, joins, FROM forms, ORDER BY families, locks, unions, windows, insert / update helpers: ~115 methods) is compared with the general form it abbreviates on random arguments (same Debug structure, same rendering on three backends)",
     level_text="Partial by nature: execution semantics live in the engine. Proved (Lean): both rendering modes are one statement for every Safe rendering, and every statement without caller-supplied raw text renders Safe (render_safe). Validated by execution on the engine: acceptance of both forms and equality of effect with the explicit reference rendering, for generated statements over the property's SQLite feature list.",
     level_note=_STMT_MODEL_NOTE + " The explicit reference renderer (harness/src/c07.rs, written from SQLite's grammar) and the SQLite library linked into python3 are trusted for the engine stage.",
     design_ref="§6 C07",
